@@ -208,7 +208,7 @@ func (rn *runner) Step(ctx *core.Ctx, op []string) string {
 			below = below || (t != path && strings.HasPrefix(path, t))
 		}
 		if rn.persisted {
-			for k := range rn.mp {
+			ends := func(k string) {
 				if strings.HasPrefix(k, path) { // the path ends at an existing node (a key or a branching point)
 					rn.overwrote = true
 					rn.orphanTop[path] = true
@@ -216,6 +216,12 @@ func (rn *runner) Step(ctx *core.Ctx, op []string) string {
 						rn.orphaned[k] = true
 					}
 				}
+			}
+			for k := range rn.mp {
+				ends(k)
+			}
+			for k := range rn.removeNP { // a removal that was not persisted: the node is back after a reload
+				ends(k)
 			}
 		}
 		if old, ok := rn.mp[path]; ok {
@@ -505,6 +511,7 @@ func (prop) Gen(r *core.Rand, tier string) []core.Case {
 		{ID: "fix-remove-leaves-prefix", NT: false, Ops: []string{"add " + ab + " 1 k=v", "add " + ac + " 2 k=v", "remove " + ab, "remove " + ac, "hasprefix " + a, "lookup " + ab}},
 		{ID: "fix-overwrite-unloaded-node", NT: false, Ops: []string{"add " + a + " 1 k=v", "add " + x + " 2 k=v", "store", "reload", "add " + a + " 3 k=v", "store", "lookup " + a, "reload", "lookup " + a}},
 		{ID: "fix-overwrite-unloaded-node-2", NT: false, Ops: []string{"add " + a + " 1 k=v", "add " + ab + " 2 k=v", "store", "reload", "add " + a + " 3 k=v", "lookup " + ab, "hasprefix " + ab, "add " + abc + " 4 k=v", "lookup " + a, "reload", "lookup " + ab}},
+		{ID: "fix-resurrected-then-overwritten", NT: false, Ops: []string{"add " + x + " 3 -", "store", "remove " + x, "store", "reload", "add " + x + " 3 k=v", "store"}},
 		{ID: "fix-clean-roundtrip", NT: true, Ops: []string{"add " + a + " 1 k=v", "add " + abc + " 2 fn=b", "add " + ab + " 3 z=9", "add " + a + " 4 fn=b", "hasprefix " + ab, "store", "reload",
 			"lookup " + a, "lookup " + ab, "lookup " + abc, "lookup " + ac, "hasprefix " + ac, "hasprefix -", "add " + ac + " 5 k=v", "store", "reload", "lookup " + ac, "lookup " + a}},
 		{ID: "fix-errors", NT: false, Ops: []string{"reload", "remove -", "lookup -", "hasprefix -", "remove " + a, "add zz 1 -", "add " + a + " 0 -", "add " + a + " 1 K=v", "frob", "new 2", "new 1", "add " + a + " 7 k=v", "store", "reload", "lookup " + a}},
